@@ -161,6 +161,34 @@ def step (s : St Float) (ws : List String) : St Float × String :=
       | some x => if e.isActive && e.wf then let s' := s.assign h x e initScratch; (s', okVal s' h) else (s, "bad-op")
       | none => (s, "bad-op")
     | _, _ => (s, "bad-op")
+  | "br" :: h :: o :: rest =>
+    -- br <h> <op> ; L ; R ; e1 ; e2     `if (L OP R) x = e1; else x = e2;`  (L, R: an expression or a scalar token)
+    let rec split : List String → List String → List (List String)
+      | [], cur => [cur.reverse]
+      | t :: ts, cur => if t == ";" then cur.reverse :: split ts [] else split ts (t :: cur)
+    let secs := (split rest []).filter (· ≠ [])
+    let parseOp : String → Option CmpOp := fun t =>
+      if t == "<" then some .lt else if t == ">" then some .gt else if t == "<=" then some .le
+      else if t == ">=" then some .ge else if t == "==" then some .eq else if t == "!=" then some .ne else none
+    let parseSide : List String → Option (CmpSide Float) := fun ts =>
+      match ts with
+      | [t] => match parseScalar t with
+        | some (c, _) => some (.num c)
+        | none => match parseExpr s.vars ts with
+          | some (e, []) => some (.expr e)
+          | _ => none
+      | _ => match parseExpr s.vars ts with
+        | some (e, []) => some (.expr e)
+        | _ => none
+    match h.toNat?, parseOp o, secs with
+    | some h, some o, [l, r, t1, t2] =>
+      match s.var? h, parseSide l, parseSide r, parseExpr s.vars t1, parseExpr s.vars t2 with
+      | some x, some l, some r, some (e1, []), some (e2, []) =>
+        if e1.isActive && e1.wf && e2.isActive && e2.wf then
+          let s' := s.branch h x o l r e1 e2 initScratch; (s', okVal s' h)
+        else (s, "bad-op")
+      | _, _, _, _, _ => (s, "bad-op")
+    | _, _, _ => (s, "bad-op")
   | "asgt" :: h :: t :: rest =>
     -- `x = outer(adouble(inner))`: temporary constructed from `inner` (handle t), assignment, temporary destroyed
     let inner := rest.takeWhile (· != ";")
